@@ -1,2 +1,68 @@
-import NSG.Model.Coord
-/-! # C16 (theorems under construction) -/
+import NSG.Properties.C09
+import NSG.Lemmas.CoordTrace
+/-! # C16 — the recorded trajectory is exactly what the agent experienced -/
+namespace NSG.Coord
+open NSG NSG.Defender
+
+/-- The only place a step is recorded is where the OK reply is produced, and what is recorded is
+exactly what is sent: the action, the reward in the observation, the view in the observation. -/
+theorem C16_record_is_reply (s : St) (c : Nat) (a : Act) (ag : Agent) (hin : s.agents c = some ag) (hm : s.mute c = false) :
+    (finishGame s c a).2 = [.reply c { code := .ok, obs := some (obsOf ag) }] ∧
+    (finishGame s c a).1.agents c = some (recordStep a ag) ∧
+    (recordStep a ag).traj = ag.traj ++ [{ act := a, reward := (obsOf ag).reward, view := (obsOf ag).view }] ∧
+    (recordStep a ag).trajInit = ag.trajInit := by
+  simp [finishGame, emit, hm, St.agent, hin, St.updAgent, St.setConn, recordStep, obsOf]
+
+/-- how background steps may change a trajectory: they only append recorded steps or restart it
+(empty, beginning at the current view); rewards, resets and requests never touch it -/
+inductive TrajEvolves : Agent → Agent → Prop
+  | same (a b) : b.traj = a.traj → b.trajInit = a.trajInit → TrajEvolves a b
+  | appended (a b l) : b.traj = a.traj ++ l → b.trajInit = a.trajInit → TrajEvolves a b
+  | restarted (a b l) : b.traj = l → TrajEvolves a b
+
+theorem C16_bstep_traj (S : Settings) (a b : Agent) (hs : BStep S a b) :
+    (∃ l, b.traj = a.traj ++ l ∧ b.trajInit = a.trajInit) ∨ (∃ mid : Agent, BStep S a mid ∧ BStep S (restartTraj mid) b) := by
+  induction hs with
+  | refl a => exact Or.inl ⟨[], by simp, rfl⟩
+  | pay a sa => refine Or.inl ⟨[], ?_, ?_⟩ <;> (unfold payOne; split <;> (try simp); split <;> (try simp); split <;> simp)
+  | record a act => exact Or.inl ⟨_, rfl, rfl⟩
+  | reset a v _ => exact Or.inl ⟨[], by simp [resetOne], rfl⟩
+  | restart a => exact Or.inr ⟨a, .refl a, .refl _⟩
+  | trans h1 h2 ih1 ih2 =>
+    rcases ih2 with ⟨l2, e2, i2⟩ | ⟨mid, m1, m2⟩
+    · rcases ih1 with ⟨l1, e1, i1⟩ | ⟨mid, m1, m2⟩
+      · exact Or.inl ⟨l1 ++ l2, by rw [e2, e1, List.append_assoc], i2.trans i1⟩
+      · exact Or.inr ⟨mid, m1, .trans m2 h2⟩
+    · exact Or.inr ⟨mid, .trans h1 m1, m2⟩
+
+/-- refused actions are not recorded: a rejected message leaves every table, trajectories included,
+exactly as it was (`C09_rejected`) -/
+theorem C16_refused_not_recorded (S : Settings) (s : St) (c : Nat) (m : Msg) (o : Oracle)
+    (hc : s.conn c = .reading) (hm : s.mute c = false) (hr : Rejected s c m o) :
+    (deliver S s (.msg c m o)).1.agents = s.agents :=
+  let ⟨_, _, _, h⟩ := C09_rejected S s c m o hc hm hr; h.agents
+
+/-- it is handed out with RESET_DONE iff requested, and starts empty again from the current view -/
+theorem C16_handed_out (S : Settings) (s : St) (c : Nat) (t : Bool) (ag : Agent) (hin : s.agents c = some ag) (hm : s.mute c = false) :
+    (∃ r, (finishReset S s c t).2 = [.reply c r] ∧ r.code = .resetDone ∧
+      r.traj = if t then some (ag.trajInit, ag.traj) else none) ∧
+    (finishReset S s c t).1.agents c = some (restartTraj ag) ∧ (restartTraj ag).traj = [] ∧ (restartTraj ag).trajInit = ag.view := by
+  refine ⟨⟨{ code := .resetDone, obs := some ag.obs, maxSteps := some (S.maxSteps ag.role),
+              traj := if t then some (ag.trajInit, ag.traj) else none }, ?_, rfl, rfl⟩, ?_, rfl, rfl⟩ <;>
+    simp [finishReset, emit, hm, St.agent, hin, St.updAgent, St.setConn]
+
+/-- with save_trajectories every reset appends exactly one record per agent in the game: its name,
+role and the episode just played; without it nothing is written -/
+theorem C16_files (S : Settings) (s : St) (o : Oracle) :
+    (resetTask S s o).files =
+      if S.storeTraj then s.files ++ s.ids.map (fun c => ((s.agent c).name, (s.agent c).role, (s.agent c).trajInit, (s.agent c).traj))
+      else s.files := by
+  simp only [resetTask]
+
+/-- one more state than actions, as many rewards as actions: by construction the trajectory is
+`trajInit` followed by a list of (action, reward, view) triples -/
+theorem C16_shape (a : Agent) :
+    (a.trajInit :: a.traj.map (·.view)).length = (a.traj.map (·.act)).length + 1 ∧
+    (a.traj.map (·.reward)).length = (a.traj.map (·.act)).length := by simp
+
+end NSG.Coord
